@@ -75,8 +75,12 @@ Theorem C19_set_eqb_sound : forall a b, set_eqb a b = true -> forall x, In x a <
 Proof. exact set_eqb_sound. Qed.
 Print Assumptions C19_set_eqb_sound.
 
-Theorem C19_same_selection_sound : forall ao bo t,
-  same_selection ao None bo (Some t) = true -> ao <> [] /\ Forall cleanP ao /\ t = join_lines ao /\ bo = [].
+(* a non-zero verdict of same_selection: the file is the option list written in one of the
+   shapes - exactly the list (1) or the list followed by one blank line (2) *)
+Theorem C19_same_selection_sound : forall ao bo t m,
+  same_selection ao None bo (Some t) = m -> m <> 0 ->
+  ao <> [] /\ Forall cleanP ao /\ bo = []
+  /\ exists sh, In sh (if m =? 1 then strict_shapes else blank_shapes) /\ file_of sh ao = Some t.
 Proof. exact same_selection_sound. Qed.
 Print Assumptions C19_same_selection_sound.
 
@@ -94,6 +98,54 @@ Theorem C19_splitlines_join_crlf : forall ids, Forall cleanP ids -> splitlines (
 Proof. exact splitlines_join_crlf. Qed.
 Print Assumptions C19_splitlines_join_crlf.
 
+(* every shape a user writes the list in - LF, unterminated last line, CRLF, CRLF with an
+   unterminated last line - reads back as exactly the list ... *)
+Theorem C19_file_of_strict : forall sh ids t, In sh strict_shapes -> Forall cleanP ids ->
+  file_of sh ids = Some t -> splitlines t = ids.
+Proof. exact file_of_strict. Qed.
+Print Assumptions C19_file_of_strict.
+
+(* ... so the entry point receives what repeating the option hands it, for every shape *)
+Theorem C19_file_eq_repeated_samples_shapes : forall sh ids t, In sh strict_shapes -> ids <> [] ->
+  Forall cleanP ids -> file_of sh ids = Some t -> resolve_samples [] (Some t) = resolve_samples ids None.
+Proof. exact resolve_samples_shape_eq. Qed.
+Print Assumptions C19_file_eq_repeated_samples_shapes.
+
+Theorem C19_file_eq_repeated_ids_shapes : forall sh ids t, In sh strict_shapes -> ids <> [] ->
+  Forall cleanP ids -> file_of sh ids = Some t -> resolve_ids false [] (Some t) = resolve_ids false ids None.
+Proof. exact resolve_ids_shape_eq. Qed.
+Print Assumptions C19_file_eq_repeated_ids_shapes.
+
+Theorem C19_file_eq_repeated_shapes : forall (A : Type) shs shi samples ids ts ti
+  (run : option (list str) -> option (list str) -> res A),
+  In shs strict_shapes -> In shi strict_shapes -> samples <> [] -> ids <> [] ->
+  Forall cleanP samples -> Forall cleanP ids -> file_of shs samples = Some ts -> file_of shi ids = Some ti ->
+  front_end false [] (Some ts) [] (Some ti) run = front_end false samples None ids None run.
+Proof. exact @front_end_shape_eq. Qed.
+Print Assumptions C19_file_eq_repeated_shapes.
+
+Example C19_file_shapes_satisfiable :
+  let ids := [[78; 65; 49; 50]; [78; 65; 49]] in      (* NA12, NA1 *)
+  map (fun sh => option_map splitlines (file_of sh ids)) strict_shapes = [Some ids; Some ids; Some ids; Some ids]
+  /\ file_of NoFinal ids = Some [78; 65; 49; 50; 10; 78; 65; 49]
+  /\ file_of CRLFNoFinal [[65]; []] = None.
+Proof. vm_compute. repeat split. Qed.
+Print Assumptions C19_file_shapes_satisfiable.
+
+(* a file that ends in a blank line hands over one more, empty, entry; it selects the same
+   rows as the repeated options whenever no row of the data has the empty name *)
+Theorem C19_file_blank_line : forall sh ids t, In sh blank_shapes -> Forall cleanP ids ->
+  file_of sh ids = Some t ->
+  resolve_samples [] (Some t) = Ok (Some (ids ++ [[]]))
+  /\ resolve_ids false [] (Some t) = Ok (Some (ids ++ [[]])).
+Proof. exact resolve_blank. Qed.
+Print Assumptions C19_file_blank_line.
+
+Theorem C19_blank_entry_selects_nothing : forall (X : Type) (key : X -> str) ids rows,
+  ~ In [] (map key rows) -> select key (Some (ids ++ [[]])) rows = select key (Some ids) rows.
+Proof. exact @select_blank. Qed.
+Print Assumptions C19_blank_entry_selects_nothing.
+
 (* whatever the file holds, no entry read from it contains a line boundary *)
 Theorem C19_splitlines_clean : forall s, Forall cleanP (splitlines s).
 Proof. exact splitlines_clean. Qed.
@@ -101,16 +153,34 @@ Print Assumptions C19_splitlines_clean.
 
 (* what the verdicts of the two checkers mean *)
 Theorem C19_holds_inv_sound : forall v, holds_inv v = true ->
-  (v_sopts v <> [] -> (exists t, v_sfile v = Some t) -> v_exit v = 2 /\ v_got v = None)
+  (v_sopts v <> [] -> (exists t, v_sfile v = Some t) -> v_exit v = 2 /\ v_usage v = true /\ v_got v = None)
   /\ (v_got v = None -> v_exit v <> 0).
 Proof. exact holds_inv_sound. Qed.
 Print Assumptions C19_holds_inv_sound.
 
 Theorem C19_holds_cli_sound : forall k, holds_cli k = true ->
   (c_both k = true -> c_exit k = 2)
-  /\ (c_both k = false -> forall o, c_py k = Ok o -> c_exit k = 0 /\ c_out k = o)
-  /\ (c_both k = false -> forall e, c_py k = Err e -> c_exit k <> 0)
+  /\ (c_both k = false -> c_ids_both k = false -> forall o, c_py k = Ok o -> c_exit k = 0 /\ c_out k = o)
+  /\ (c_both k = false -> c_ids_both k = false -> forall e, c_py k = Err e -> c_exit k <> 0)
   /\ (c_raised k = true -> c_exit k <> 0)
-  /\ (forall e o, c_alt k = Some (e, o) -> e = c_exit k /\ (e = 0 -> o = c_out k)).
+  /\ (forall e o, c_alt k = Some (e, o) -> e = c_exit k /\ (e = 0 -> o = c_out k))
+  /\ holds_unknown k = true.
 Proof. exact holds_cli_sound. Qed.
 Print Assumptions C19_holds_cli_sound.
+
+(* unknown entries: the run exits like, and writes what, the run without them writes ("ignored"), and when it
+   completes with warnings enabled it says something the other run does not say ("reported"); where the
+   demand is 2 every unknown entry (up to five) is a word of a warning *)
+Theorem C19_holds_unknown_sound : forall k e o msgs, holds_unknown k = true -> c_ref k = Some (e, o, msgs) ->
+  c_exit k = e /\ (e = 0 -> c_out k = o)
+  /\ (c_exit k = 0 -> c_verbose k = true ->
+      reported (demand_samples k) (unknown_of (c_req_s k) (c_known_s k)) (c_logs k) msgs = true
+      /\ reported (demand_ids k) (unknown_of (c_sel_i k) (c_known_i k)) (c_logs k) msgs = true).
+Proof. exact holds_unknown_sound. Qed.
+Print Assumptions C19_holds_unknown_sound.
+
+Theorem C19_reported_sound : forall demand unk logs msgs, reported demand unk logs msgs = true -> unk <> [] ->
+  (1 <= demand -> new_message logs msgs = true)
+  /\ (2 <= demand -> lenZ unk <= 5 -> forall x, In x unk -> named logs x = true).
+Proof. exact reported_sound. Qed.
+Print Assumptions C19_reported_sound.
